@@ -16,7 +16,7 @@ T = {
          'Rocq theorems over the builder model + regenerated translation of the emitted parser + correspondence'),
  'C02': ('Coq theorem: every valid builder history refines the reference tree model without panic and root-closing yields the pre-order layout of the reference tree (unbounded); per-run ghost discipline + K1/K3 correspondence + structural oracle',
          'Rocq refinement proof (abstract builder) + translator/correspondence'),
- 'C03': ('translation validation: emitted parser translated to the Exec.v command language and run against the compiled parser (fuel exhaustion vs watchdog); catch_unwind/watchdog oracle; theorems pending',
+ 'C03': ('translation validation: emitted parser translated to the Exec.v command language and run against the compiled parser (fuel exhaustion vs watchdog); catch_unwind/watchdog oracle; one Coq theorem (a result other than fuel exhaustion is the same for every larger fuel)',
          'translator + correspondence (Rocq model Exec.v), totality oracle'),
  'C04': ('translation validation + Earley membership / prioritised reference interpreter; theorems pending',
          'translator + correspondence, Earley and reference-interpreter oracles'),
@@ -40,7 +40,7 @@ T = {
          'round-trip exploration'),
  'C14': ('Coq theorems: the elimination loop computes exactly the dominators (paths in the predecessor graph) and recovery = union of dominator follow sets minus first/follow of the body, under certificates evaluated per grammar; K2 correspondence + brute-force dominators on an independent graph',
          'Rocq model + K2 correspondence, brute-force dominator oracle'),
- 'C15': ('partial: cross-process determinism and behaviour under permuted declarations observed on the real binary and compiled parsers; theorems pending',
+ 'C15': ('partial: cross-process determinism and behaviour under permuted declarations observed on the real binary and compiled parsers; one Coq theorem (dominator sets independent of the hash iteration order)',
          'differential runs of the real binary and generated parsers'),
  'C16': ('translation validation + pairwise comparison of parses with and without trivia; Coq theorems for one clause only (the current token and the predicate lookahead are never skipped tokens, for every program/input)',
          'translator + K1/K3 correspondence, trivia-pair oracle'),
@@ -56,7 +56,7 @@ T = {
 
 
 # properties whose Props file proves one clause only: the claimed level stays the level of the rest
-PARTIAL_THEOREMS = ('C07', 'C16')
+PARTIAL_THEOREMS = ('C03', 'C07', 'C15', 'C16')
 
 
 def level(pid):
